@@ -251,6 +251,49 @@ def property_symmetric(ant):
     return None
 
 
+def stepped_case(rng):
+    """a straight element along a coordinate axis made of 2-3 connected collinear wires with bitwise equal
+    segment length and different radii (stepped diameter), plus optionally a bent end wire; second
+    description: random directions and order"""
+    f = rng.choice([14.0, 21.0, 35.0])
+    lam = 299.8 / f
+    s = rng.choice([0.125, 0.25, 0.5])                      # exactly representable segment length
+    while s > lam / 12:
+        s /= 2
+    ax = rng.randrange(3)
+    cuts = [0]
+    for k in range(rng.randint(2, 3)):
+        cuts.append(cuts[-1] + rng.randint(2, 5))
+    radii = [s / rng.choice([20.0, 40.0, 80.0, 160.0]) for _ in cuts[1:]]
+    if len(set(radii)) == 1:
+        radii[0] = radii[0] / 2
+    wires = []
+    off = [rng.choice([0.0, 1.0, -2.0]) for _ in range(3)]
+    for a, b, r in zip(cuts, cuts[1:], radii):
+        p0, p1 = list(off), list(off)
+        p0[ax] += a * s
+        p1[ax] += b * s
+        wires.append(dict(nseg=b - a, p0=p0, p1=p1, r=r))
+    if rng.random() < 0.4:
+        e = list(wires[-1]['p1'])
+        q = list(e)
+        q[(ax + 1) % 3] += 3 * s
+        q[ax] += s
+        wires.append(dict(nseg=3, p0=e, p1=q, r=radii[-1]))
+    ant = dict(f=f, ground=False, wires=wires, family='stepped', lam=lam, seg=s)
+    ws = [dict(w) for w in wires]
+    ops = []
+    for w in ws:
+        if rng.random() < 0.5:
+            w['p0'], w['p1'] = w['p1'], w['p0']
+            ops.append('rev')
+    perm = list(range(len(ws)))
+    rng.shuffle(perm)
+    ws = [ws[i] for i in perm]
+    ops.append('perm%s' % perm)
+    return ant, dict(ant, wires=ws), ops
+
+
 def replay(rp):
     if rp.get('kind') == 'redescription':
         bad, tie = property_on_impl(rp['ant'], rp['ant2'], rp['src_seed'])
@@ -305,6 +348,24 @@ def run(ck):
                 dis.append(dict(ant=ant, ant2=ant2, src_seed=ss, why="Z' = T Z T^T off by %.3g, rhs' = T rhs off by %.3g" % tie))
         if bad:
             viol.append(dict(kind='redescription', ant=ant, ant2=ant2, src_seed=ss, mode=mode, ops=ops, observed=bad))
+    for i in range(25 if ck.tier == 'quick' else 300):
+        ant, ant2, ops = stepped_case(rng)
+        ss = rng.randrange(10 ** 9)
+        try:
+            bad, tie = property_on_impl(ant, ant2, ss)
+        except Exception as e:
+            bad, tie = 'evaluation raised %s: %s' % (type(e).__name__, e), None
+        if bad is None and tie is None:
+            ck.count('skipped_cond_or_no_source')
+            continue
+        ck.case(('stepped', len(ant['wires']), tuple(ops), i), True, sample=dict(family='stepped', ops=ops) if i < 2 else None)
+        ck.count('mode_stepped')
+        if tie:
+            worst = [max(worst[0], tie[0]), max(worst[1], tie[1])]
+            if tie[0] > 5e-6 or tie[1] > 1e-12:
+                dis.append(dict(ant=ant, ant2=ant2, src_seed=ss, why="Z' = T Z T^T off by %.3g, rhs' = T rhs off by %.3g" % tie))
+        if bad:
+            viol.append(dict(kind='redescription', ant=ant, ant2=ant2, src_seed=ss, mode='stepped', ops=ops, observed=bad))
     for i in range(10 if ck.tier == 'quick' else 100):
         ant = symmetric_case(rng)
         bad = property_symmetric(ant)
